@@ -432,46 +432,55 @@ def clsLaser : List Str := [['L','a','s','e','r'], ['R','a','s','t','e','r']]
 def clsSpot : List Str := [['S','p','o','t']]
 def clsSRR : List Str := [['S','R','R','L','a','s','e','r'], ['S','R','R']]
 
-/-- `npz.load` -/
-def load (fl : Rat → Rat) (p : PathInfo) (f : NpzFile) : Except Err Laser := do
-  let hdr ← (match f.header with
-    | none =>
-      match f.version with
-      | none => throw Err.valueError
-      | some v => do
-        if (← compareVersion v v060) = -1 then throw Err.valueError
-        let c ← getOr .keyError f.cls
-        pure (v, some c)
-    | some h => do
-      let d := unpackInfo h
-      let v ← getOr .keyError (dictGet d kVersion)
-      pure (v, dictGet d kClass))
-  let ver := hdr.1
-  let data := f.data
-  let info ← (do
-    if (← compareVersion ver v070) = -1 then
-      let n ← getOr .keyError f.name
-      pure [(kName, n)]
-    else
-      let s ← getOr .keyError f.info
-      pure (unpackInfo s))
-  let cal ← (do
-    if (← compareVersion ver v080) = -1 then
-      data.fields.foldlM (fun (d : List (Str × Cal)) nf => do
-        let a ← getOr .keyError (dictGet f.calibrationOf nf.1)
-        pure (dictInsert d nf.1 (Cal.fromArray a))) []
-    else
-      let x ← getOr .keyError f.calibration
-      pure (unpackCalibration x))
-  let cls ← getOr .keyError hdr.2
-  let (kind, config) ← (
-    if cls ∈ clsLaser then do pure (Kind.laser, ← rasterFromArray f.config)
-    else if cls ∈ clsSpot then do pure (Kind.laser, ← spotFromArray f.config)
-    else if cls ∈ clsSRR then do pure (Kind.srr, ← srrFromArray fl f.config)
-    else throw Err.valueError)
-  let info := dictInsert info kName ((dictGet info kName).getD p.stem)
-  let info := dictInsert info kFilePath p.resolved
-  let info := dictInsert info kFileVersion ver
+/-- the `header` dict of `load`: version and (looked up later) class -/
+def loadHeader (f : NpzFile) : Except Err (Str × Option Str) :=
+  match f.header with
+  | none =>
+    match f.version with
+    | none => throw Err.valueError
+    | some v => do
+      if (← compareVersion v v060) = -1 then throw Err.valueError
+      let c ← getOr .keyError f.cls
+      pure (v, some c)
+  | some h => do
+    let d := unpackInfo h
+    let v ← getOr .keyError (dictGet d kVersion)
+    pure (v, dictGet d kClass)
+
+/-- before 0.7.0 only a name was stored -/
+def loadInfo (f : NpzFile) (ver : Str) : Except Err Info := do
+  if (← compareVersion ver v070) = -1 then
+    let n ← getOr .keyError f.name
+    pure [(kName, n)]
+  else
+    let s ← getOr .keyError f.info
+    pure (unpackInfo s)
+
+/-- before 0.8.0 one member per element, afterwards the packed table -/
+def loadCal (f : NpzFile) (ver : Str) : Except Err (List (Str × Cal)) := do
+  if (← compareVersion ver v080) = -1 then
+    f.data.fields.foldlM (fun (d : List (Str × Cal)) nf => do
+      let a ← getOr .keyError (dictGet f.calibrationOf nf.1)
+      pure (dictInsert d nf.1 (Cal.fromArray a))) []
+  else
+    let x ← getOr .keyError f.calibration
+    pure (unpackCalibration x)
+
+/-- class dispatch -/
+def loadConfig (fl : Rat → Rat) (cls : Str) (a : CfgArr) : Except Err (Kind × Config) :=
+  if cls ∈ clsLaser then do pure (Kind.laser, ← rasterFromArray a)
+  else if cls ∈ clsSpot then do pure (Kind.laser, ← spotFromArray a)
+  else if cls ∈ clsSRR then do pure (Kind.srr, ← srrFromArray fl a)
+  else throw Err.valueError
+
+/-- `Name` is ensured, `File Path` and `File Version` are set -/
+def finishInfo (p : PathInfo) (ver : Str) (i : Info) : Info :=
+  dictInsert (dictInsert (dictInsert i kName ((dictGet i kName).getD p.stem)) kFilePath p.resolved)
+    kFileVersion ver
+
+/-- the constructor call at the end of `load` -/
+def construct (kind : Kind) (data : DataArr) (cal : List (Str × Cal)) (config : Config) (info : Info) :
+    Except Err Laser :=
   match kind with
   | .laser => pure (mkLaser .laser data.fields [⟨data.shape, data.cells⟩] cal config info)
   | .srr => do
@@ -479,12 +488,16 @@ def load (fl : Rat → Rat) (p : PathInfo) (f : NpzFile) : Except Err Laser := d
     if layers.length ≤ 1 then throw Err.assertionError
     pure (mkLaser .srr data.fields layers cal config info)
 
-/-! ## specification -/
+/-- `npz.load` -/
+def load (fl : Rat → Rat) (p : PathInfo) (f : NpzFile) : Except Err Laser := do
+  let hdr ← loadHeader f
+  let info ← loadInfo f hdr.1
+  let cal ← loadCal f hdr.1
+  let cls ← getOr .keyError hdr.2
+  let kc ← loadConfig fl cls f.config
+  construct kc.1 f.data cal kc.2 (finishInfo p hdr.1 info)
 
-/-- the info of a laser loaded from `p` with file version `ver`, given the info `i` the file carries -/
-def finishInfo (p : PathInfo) (ver : Str) (i : Info) : Info :=
-  dictInsert (dictInsert (dictInsert i kName ((dictGet i kName).getD p.stem)) kFilePath p.resolved)
-    kFileVersion ver
+/-! ## specification -/
 
 /-- what `load (save L)` must be: everything as it was; info with tabs→spaces, `File Path`
 replaced, `Name` / `File Version` added -/
